@@ -128,23 +128,6 @@ func (self AnalyzedBoolLiteralExpression) Constant() bool    { return true }
 //
 
 // TODO: add more escapes
-func escapeHmsString(input string) string {
-	output := input
-
-	escapes := map[string]string{
-		"\n": "\\n",
-		"\"": "\\\"",
-		"\t": "\\n",
-	}
-
-	for from, to := range escapes {
-		output = strings.ReplaceAll(output, from, to)
-	}
-
-	return output
-
-}
-
 type AnalyzedStringLiteralExpression struct {
 	Value string
 	Range errors.Span
@@ -155,7 +138,7 @@ func (self AnalyzedStringLiteralExpression) Kind() ExpressionKind {
 }
 func (self AnalyzedStringLiteralExpression) Span() errors.Span { return self.Range }
 func (self AnalyzedStringLiteralExpression) String() string {
-	return fmt.Sprintf("\"%s\"", escapeHmsString(self.Value))
+	return ast.QuoteString(self.Value)
 }
 func (self AnalyzedStringLiteralExpression) Type() Type     { return NewStringType(self.Range) }
 func (self AnalyzedStringLiteralExpression) Constant() bool { return true }
@@ -327,7 +310,7 @@ type AnalyzedObjectLiteralField struct {
 func (self AnalyzedObjectLiteralField) String() string {
 	var key string
 	if !util.IsIdent(self.Key.Ident()) {
-		key = fmt.Sprintf("\"%s\"", self.Key.Ident())
+		key = ast.QuoteString(self.Key.Ident())
 	} else {
 		key = self.Key.Ident()
 	}
